@@ -57,6 +57,13 @@ func inWorld(rt *rapid.T, opt hlsim.Options, body func(rt *rapid.T, w *hlsim.Wor
 		if opt.RootSpelling == 0 {
 			opt.RootSpelling = rapid.SampledFrom([]int{0, 0, 0, 0, 1, 2, 3, 4}).Draw(rt, "rootSpelling")
 		}
+		// ... and may have configured a banner (the shipped configuration does): 1.5 clients are then told about it when
+		// they agree
+		if opt.BannerFile == "-" {
+			opt.BannerFile = "" // the caller decided: no banner (checks that compare two worlds must build them alike)
+		} else if opt.BannerFile == "" && rapid.Bool().Draw(rt, "bannerConfigured") {
+			opt.BannerFile = "banner.jpg"
+		}
 		w, err := hlsim.New(worldBase(), opt)
 		if err != nil {
 			rt.Fatalf("harness: building world: %v", err)
